@@ -133,7 +133,9 @@ fn run_case(variant: Variant, mat: &[f64], vars: &[usize], do_sample: bool) {
         }
     }
     let has_neg = shifted.iter().any(|x| *x < 0.0);
-    let must_reject = !len_ok || has_neg;
+    // fix F26: a variable list naming a variable twice must be rejected (accepted, it crashed the sampler)
+    let has_dup = (1..vars.len()).any(|i| vars[..i].contains(&vars[i]));
+    let must_reject = !len_ok || has_neg || has_dup;
     let mut oracle: Result<(), String> = Ok(());
     let mut fail = |s: String| {
         if oracle.is_ok() {
@@ -160,7 +162,7 @@ fn run_case(variant: Variant, mat: &[f64], vars: &[usize], do_sample: bool) {
             if must_reject {
                 fail(format!(
                     "accepted although {}",
-                    if !len_ok { "matrix size does not match variable list" } else { "negative weight" }
+                    if !len_ok { "matrix size does not match variable list" } else if has_neg { "negative weight" } else { "the variable list names a variable twice (finding F26)" }
                 ));
             }
             // entries closer than the library's absolute tolerance (f64::EPSILON) without being equal: the
@@ -405,7 +407,16 @@ fn main() {
                 }
             }
         }
-        run_case(v, &mat, &shuffled_vars(&mut g, nv), k % 4 == 0);
+        // variable indices beyond a machine word's bit count, incl. pairs congruent modulo 64 (a bitmask-based
+        // duplicate check would confuse them or overflow its shift)
+        let mut vars = if g.chance(1, 6) { big_vars(&mut g, nv) } else { shuffled_vars(&mut g, nv) };
+        if nv >= 2 && g.chance(1, 8) {
+            // a repeated variable (finding F26): must be an error
+            let i = g.below(nv as u64) as usize;
+            let j = (i + 1 + g.below(nv as u64 - 1) as usize) % nv;
+            vars[j] = vars[i];
+        }
+        run_case(v, &mat, &vars, k % 4 == 0);
     }
     // 4. get_power_of_two / get_mat_var_size are private; they are observed through case set 1.
     // 5. tiny, subnormal and tolerance-boundary entries: a weight in (-EPSILON, 0) is still a negative weight;
@@ -464,6 +475,25 @@ fn main() {
     }
     stat("tiny_stream_with_negative_entry", tiny_neg);
     stat("tiny_stream_with_tolerance_boundary_pair", tiny_boundary);
+}
+
+fn big_vars(g: &mut SplitMix64, nv: usize) -> Vec<usize> {
+    let base = g.below(6) as usize;
+    let mut ks: Vec<usize> = (0..3usize).collect();
+    let mut out = vec![];
+    for j in 0..nv {
+        if j < 3 && g.chance(2, 3) {
+            let i = g.below(ks.len() as u64) as usize;
+            out.push(base + 64 * ks.remove(i)); // congruent modulo 64
+        } else {
+            let mut v = 6 + g.below(120) as usize;
+            while out.contains(&v) {
+                v += 1;
+            }
+            out.push(v);
+        }
+    }
+    out
 }
 
 fn shuffled_vars(g: &mut SplitMix64, nv: usize) -> Vec<usize> {
